@@ -451,22 +451,59 @@ def _next_prime(n):
     return n
 
 
+# libstdc++ (GCC 12) _Prime_rehash_policy with max_load_factor 1.0: same bucket counts as the real library, so that the
+# iteration order of std::unordered_map -- and with it the floating-point summation order -- matches the native build
+# (checked by the per-run differential).  rehash_bias != 0 selects a different, equally conforming growth policy.
+_PRIMES = [2, 3, 5, 7, 11, 13, 17, 19, 23, 29, 31, 37, 41, 43, 47, 53, 59, 61, 67, 71, 73, 79, 83, 89, 97, 103, 109, 113, 127, 137, 139,
+           149, 157, 167, 179, 193, 199, 211, 227, 241, 257, 277, 293, 313, 337, 359, 383, 409, 439, 467, 503, 541, 577, 619, 661, 709,
+           761, 823, 887, 953, 1031, 1109, 1193, 1289, 1381, 1493, 1613, 1741, 1879, 2029, 2179, 2357, 2549, 2753, 2971, 3209, 3469,
+           3739, 4027, 4349, 4703, 5087, 5503, 5953, 6427, 6949, 7517, 8123, 8783, 9497, 10273, 11113, 12011, 12983, 14033, 15173,
+           16411]
+_FAST = [2, 2, 2, 3, 5, 5, 7, 7, 11, 11, 11, 11, 13, 13]
+
+
+def _next_bkt_real(m, this, n):
+    if n < len(_FAST):
+        if n == 0:
+            return 1
+        m.store(Ptr(this.obj, this.off + 8), _FAST[n], 8)
+        return _FAST[n]
+    nb = None
+    for p in _PRIMES[6:]:
+        if p >= n:
+            nb = p
+            break
+    if nb is None:
+        nb = _next_prime(n)
+    m.store(Ptr(this.obj, this.off + 8), nb, 8)
+    return nb
+
+
 def x_need_rehash(m, this, n_bkt, n_elt, n_ins):
     nxt = m.load(Ptr(this.obj, this.off + 8), 8, IntT(64))
+    if m.rehash_bias:
+        if n_elt + n_ins > nxt:
+            min_bkts = n_elt + n_ins
+            if min_bkts >= n_bkt:
+                nb = _next_prime(max(min_bkts + 1, n_bkt * 2) + m.rehash_bias)
+                m.store(Ptr(this.obj, this.off + 8), nb, 8)
+                return [1, nb]
+            m.store(Ptr(this.obj, this.off + 8), n_bkt, 8)
+        return [0, 0]
     if n_elt + n_ins > nxt:
-        min_bkts = n_elt + n_ins
+        min_bkts = max(n_elt + n_ins, 0 if nxt else 11)
         if min_bkts >= n_bkt:
-            nb = _next_prime(max(min_bkts + 1, n_bkt * 2) + m.rehash_bias)
-            m.store(Ptr(this.obj, this.off + 8), nb, 8)
-            return [1, nb]
+            return [1, _next_bkt_real(m, this, max(min_bkts + 1, n_bkt * 2))]
         m.store(Ptr(this.obj, this.off + 8), n_bkt, 8)
     return [0, 0]
 
 
 def x_next_bkt(m, this, n):
-    nb = _next_prime(max(n, 2) + m.rehash_bias)
-    m.store(Ptr(this.obj, this.off + 8), nb, 8)
-    return nb
+    if m.rehash_bias:
+        nb = _next_prime(max(n, 2) + m.rehash_bias)
+        m.store(Ptr(this.obj, this.off + 8), nb, 8)
+        return nb
+    return _next_bkt_real(m, this, n)
 
 
 # std::_Rb_tree_* : unbalanced BST with the same node layout {color:i32, parent*, left*, right*}
